@@ -163,8 +163,21 @@ pub fn feat_name(i: usize) -> String {
     format!("F{}", i + 1)
 }
 
+/// Lead-in some matched step texts carry in front of the part the definition matches (the
+/// main pattern is not anchored at the start for them): capture offsets are then far from 0.
+pub const LEAD: &str = "a long lead-in that is no part of the match: ";
+
+/// A step text without its lead-in (the key the harness callables log).
+pub fn strip_lead(s: &str) -> &str {
+    s.strip_prefix(LEAD).unwrap_or(s)
+}
+
 fn step_text(kind: StepKind, prefix: &str, owner: &str, n: usize) -> String {
     match kind {
+        // rule-background steps and every second own step carry the lead-in
+        StepKind::Matched if prefix == "rbg" || (prefix == "step" && n == 2) => {
+            format!("{LEAD}{prefix} {owner} {n}")
+        }
         StepKind::Matched => format!("{prefix} {owner} {n}"),
         StepKind::NoMatch => format!("nomatch-{prefix} {owner} {n}"),
         StepKind::Ambiguous => format!("ambig-{prefix} {owner} {n}"),
@@ -227,7 +240,15 @@ impl FeatSpec {
         for (k, r) in self.rules.iter().enumerate() {
             let rname = format!("{fname}.R{}", k + 1);
             out += &tags_line("  ", &r.tags);
-            out += &format!("  Rule: {rname}\n");
+            // `@twin-rules` on the feature: all its rules carry one and the same name,
+            // `@unnamed-rules`: none has a name (the harness tells them apart by position)
+            if self.tags.iter().any(|t| t == "twin-rules") {
+                out += &format!("  Rule: {fname}.R\n");
+            } else if self.tags.iter().any(|t| t == "unnamed-rules") {
+                out += "  Rule:\n";
+            } else {
+                out += &format!("  Rule: {rname}\n");
+            }
             if !r.bg.is_empty() {
                 out += "    Background:\n";
                 for (n, kd) in r.bg.iter().enumerate() {
@@ -304,7 +325,7 @@ impl Config {
                 .enumerate()
                 .map(|(n, k)| {
                     let text = step_text(*k, "bg", &fname, n + 1);
-                    CallSpec { key: text.clone(), text, is_bg: true, kind: *k }
+                    CallSpec { key: strip_lead(&text).to_owned(), text, is_bg: true, kind: *k }
                 })
                 .collect();
             for (j, s) in f.scenarios.iter().enumerate() {
@@ -312,7 +333,7 @@ impl Config {
                 let mut calls = bg_calls.clone();
                 for (n, k) in s.steps.iter().enumerate() {
                     let text = step_text(*k, "step", &sname, n + 1);
-                    calls.push(CallSpec { key: text.clone(), text, is_bg: false, kind: *k });
+                    calls.push(CallSpec { key: strip_lead(&text).to_owned(), text, is_bg: false, kind: *k });
                 }
                 out.push(ScenInfo {
                     feat_idx: i,
@@ -331,14 +352,14 @@ impl Config {
                 let mut rbg = bg_calls.clone();
                 for (n, kd) in r.bg.iter().enumerate() {
                     let text = step_text(*kd, "rbg", &rname, n + 1);
-                    rbg.push(CallSpec { key: text.clone(), text, is_bg: true, kind: *kd });
+                    rbg.push(CallSpec { key: strip_lead(&text).to_owned(), text, is_bg: true, kind: *kd });
                 }
                 for (j, s) in r.scenarios.iter().enumerate() {
                     let sname = format!("{rname}.S{}", j + 1);
                     let mut calls = rbg.clone();
                     for (n, kd) in s.steps.iter().enumerate() {
                         let text = step_text(*kd, "step", &sname, n + 1);
-                        calls.push(CallSpec { key: text.clone(), text, is_bg: false, kind: *kd });
+                        calls.push(CallSpec { key: strip_lead(&text).to_owned(), text, is_bg: false, kind: *kd });
                     }
                     out.push(ScenInfo {
                         feat_idx: i,
@@ -403,7 +424,7 @@ pub fn collection() -> Collection<TW> {
     };
     let loc = |line| Some(cucumber::step::Location { path: "harness.rs", line, column: 1 });
     let (main, wide, amb) =
-        (r"^x?(step|bg|rbg) (\S+) (\d+)$", r"^ambig-x?\S+ .*$", r"^a?ambig-(step|bg|rbg) (\S+) (\d+)$");
+        (r"(?:^x?|: )(step|bg|rbg) (\S+) (\d+)$", r"^ambig-x?\S+ .*$", r"^a?ambig-(step|bg|rbg) (\S+) (\d+)$");
     // the same definitions under all three step types (steps use every keyword); the
     // ambiguous pattern text at two locations: two definitions, not one
     Collection::new()
